@@ -388,5 +388,11 @@ pub fn install_panic_hook(verbose: bool) {
 
 /// `true` iff the location string points into the code under test.
 pub fn location_in_repo(loc: &str) -> bool {
-    loc.starts_with("/repo/src") || loc.starts_with("src/")
+    // the crate under test is a path dependency, so its panic locations are absolute paths;
+    // the harness' own files show up as relative `src/...` paths and must never count
+    if loc.starts_with("/repo/src") {
+        return true;
+    }
+    // scratch builds against a copy of the repository (mutation experiments)
+    std::env::var("AGSIM_REPO_PREFIX").is_ok_and(|p| loc.starts_with(&p))
 }
